@@ -256,6 +256,12 @@ def run_shard(spec_, R):
         cache = {}
         last = None
         for pos, letter in enumerate(seq):
+            if (not resize_ok) and pos == len(seq) - 1 and len(seq) > 1:
+                # a refused request in between (array volumes can only be resized in 2-D): the geometry stays usable
+                try:
+                    geom.integrate(make_data(rng, darsia, spec, desc, 1, {})[0])
+                except Exception:
+                    R.count("refused_request_in_between")
             obj, arr, dshape = make_data(rng, darsia, spec, desc, letter, cache)
             key = None
             if array_weight and desc["payload"] != "scalar":
@@ -372,6 +378,20 @@ def run_shard(spec_, R):
                                 R.check(bool(np.all(np.abs(q0 - q1) <= (1e-5 if f32 else 1e-12) * np.abs(q1))), "normalize_equalises",
                                         lambda: {**case, "what": "reference image modified in place between two normalisations", "normalised": q0.tolist() if q0.size < 5 else "array",
                                                  "reference": q1.tolist() if q1.size < 5 else "array"}, group=grp + "/reference_changed")
+
+                        # integer-typed images (counts) with a series / vector payload: the normalised image has the
+                        # reference's integrals (the library returns a float image there)
+                        if desc["payload"] != "scalar" and si % 2 == 0:
+                            imi = darsia.Image((np.abs(x) * 40 + 3).astype([np.uint8, np.uint16, np.int32][si % 3]), **{**kw, "dimensions": list(kw["dimensions"])})
+                            oki, nrmi = R.guarded("normalize", lambda: g3.normalize(imi, ref), key=lambda e, w: key, unsupported=(TypeError,))
+                            if oki:
+                                oki, pairi = R.guarded("integrate", lambda: (g3.integrate(nrmi), g3.integrate(ref)), key=lambda e, w: key)
+                                if oki:
+                                    r0, r1 = np.asarray(pairi[0], float), np.asarray(pairi[1], float)
+                                    R.check(bool(np.all(np.abs(r0 - r1) <= 1e-5 * np.abs(r1))), "normalize_equalises",
+                                            lambda: {**case, "what": "integer-typed image", "image_dtype": imi.img.dtype.name, "result_dtype": nrmi.img.dtype.name,
+                                                     "normalised": r0.tolist() if r0.size < 5 else "array", "reference": r1.tolist() if r1.size < 5 else "array"}, group=grp + "/integer_image")
+                                    R.count("normalize_integer_images")
 
     # ---------------------------------------------------------- offline checker
     # sequential specification "a call is a function of (geometry, data)": events with the
